@@ -38,6 +38,24 @@ Check (C10_nonvacuous :
   canonical (Rat32 (i32_min + 1) 3) /\ canonical (BigRat i32_min 3) /\
   canonical (BigRat 1 (i32_max + 1))).
 
+Check (C10_quotient_exact : forall a b, canonical a -> canonical b -> is_integer a -> is_integer b ->
+  if (numer b =? 0)%Z then quotient a b = ErrDivZero
+  else exists v, quotient a b = Ok v /\ canonical v /\ is_integer v /\ numer v = Z.quot (numer a) (numer b)).
+Check (C10_remainder_exact : forall a b, canonical a -> canonical b -> is_integer a -> is_integer b ->
+  if (numer b =? 0)%Z then remainder a b = ErrDivZero
+  else exists v, remainder a b = Ok v /\ canonical v /\ is_integer v /\ numer v = Z.rem (numer a) (numer b)).
+Check (C10_modulo_exact : forall a b, canonical a -> canonical b -> is_integer a -> is_integer b ->
+  if (numer b =? 0)%Z then modulo a b = ErrDivZero
+  else exists v, modulo a b = Ok v /\ canonical v /\ is_integer v /\ numer v = Z.modulo (numer a) (numer b)).
+Check (C10_gcd_exact : forall fuel a b, canonical a -> canonical b -> is_integer a -> is_integer b ->
+  (Z.to_nat (Z.abs (numer b)) < fuel)%nat ->
+  exists v, gcd_loop fuel a b = Some (Ok v) /\ canonical v /\ is_integer v /\
+            numer v = Z.gcd (numer a) (numer b)).
+Check (C10_exact_integer_sqrt : forall a, canonical a -> is_integer a -> (0 <= numer a)%Z ->
+  exists s r, exact_integer_sqrt a = Some (s, r) /\ canonical s /\ canonical r /\
+              (numer s * numer s + numer r = numer a)%Z /\
+              (numer s * numer s <= numer a < (numer s + 1) * (numer s + 1))%Z /\ (0 <= numer s)%Z).
+
 (* the definitions the statements rest on, pinned too *)
 Check (eq_refl : canonical = fun v => match v with
   | IntV z => fits_isize z = true
@@ -61,3 +79,8 @@ Print Assumptions C10_eq_correct.
 Print Assumptions C10_cmp_correct.
 Print Assumptions C10_canonical_unique.
 Print Assumptions C10_nonvacuous.
+Print Assumptions C10_quotient_exact.
+Print Assumptions C10_remainder_exact.
+Print Assumptions C10_modulo_exact.
+Print Assumptions C10_gcd_exact.
+Print Assumptions C10_exact_integer_sqrt.
